@@ -40,6 +40,9 @@ def _pos(xarr) -> int:
     return iv
 
 
+_ROUTE = [0]
+
+
 def run_landscape(cfg: dict, land: dict) -> dict:
     """Run the real Newton backend on the scripted landscape.  land: {pos:int -> (t, v)}."""
     from hiten.algorithms.corrector.backends.newton import _NewtonBackend
@@ -82,7 +85,17 @@ def run_landscape(cfg: dict, land: dict) -> dict:
                          max_delta=(None if cfg["cap"] == 0 else float(cfg["cap"])), fd_step=1e-8)
     out = {"kind": None, "unscripted": None}
     try:
-        res = _NewtonBackend(stepper_factory=factory).run(request=req)
+        # three ways to hand the stepper to the backend, in rotation: at construction; per call on a backend built without one;
+        # per call on a backend built with the OTHER stepper (the per-call factory takes precedence, newton.py run())
+        route = _ROUTE[0] % 3
+        _ROUTE[0] += 1
+        if route == 0:
+            res = _NewtonBackend(stepper_factory=factory).run(request=req)
+        elif route == 1:
+            res = _NewtonBackend().run(request=req, stepper_factory=factory)
+        else:
+            other = make_plain_stepper() if cfg["stepper"] == "armijo" else make_armijo_stepper(alpha_reduction=0.5, min_alpha=0.25, armijo_c=0.5)
+            res = _NewtonBackend(stepper_factory=other).run(request=req, stepper_factory=factory)
         p = _pos(res.x_corrected)
         nrm = float(res.residual_norm)
         out.update(kind="returned", x=p, norm=(-1 if math.isnan(nrm) else int(nrm)), iters=int(res.iterations))
